@@ -29,6 +29,18 @@ EDITS = [
     ("from_tag: comment", "src/internal/language.rs", r"(        for &\(lang_code, lang_tag, sublangs\) in LANGUAGES\.iter\(\) \{)", r"        // linear search: the table is small\n\1", ["C17"]),
     ("set: comment", "src/internal/propset.rs", r"(        self\.properties\.insert\(property_name, property_value\);)", r"        // store the value\n\1", ["C10"]),
     ("format_with_precedence: rename local", "src/internal/expr.rs", r"\bop_prec\b", "level", ["C19"]),
+    ("CodePage::encode: swap two independent statements", "src/internal/codepage.rs",
+     r"(                total_read \+= read;\n)(                bytes\.extend_from_slice\(&buffer\[\.\.written\]\);\n)", r"\2\1", ["C14"]),
+    ("CodePage::encode: reorder match arms", "src/internal/codepage.rs",
+     r"(                    EncoderResult::InputEmpty => \{\n                        break;\n                    \}\n)(                    EncoderResult::OutputFull => \{\n                        continue;\n                    \}\n)", r"\2\1", ["C14"]),
+    ("finish: rename the stream local", "src/internal/package.rs",
+     r"(?s)(if package\.is_summary_info_modified \{\n\s*let )stream( = package.*?package\.summary_info\.write\()stream(\)\?;)", r"\1out\2out\3", ["C15"]),
+    ("finish: comment", "src/internal/package.rs", r"(            package\.string_pool\.mark_unmodified\(\);)", r"            // both streams are on the medium now\n\1", ["C15"]),
+    ("Language::tag: comment", "src/internal/language.rs", r"(        let lang_code = self\.code & LANG_MASK;)", r"        // primary language: low ten bits\n\1", ["C17"]),
+    ("set_arch: rename local", "src/internal/summary.rs", r"\blangs\b", "language_part", ["C10"]),
+    ("arch(): flip the if", "src/internal/summary.rs",
+     r"                if arch\.is_empty\(\) \{\n                    None\n                \} else \{\n                    Some\(arch\)\n                \}",
+     "                if !arch.is_empty() {\n                    Some(arch)\n                } else {\n                    None\n                }", ["C10"]),
     ("encode (streamname): comment", "src/internal/streamname.rs", r"(    let mut chars = name\.chars\(\)\.peekable\(\);\n    while let)", r"    // greedy packing\n\1", ["C11"]),
 ]
 
